@@ -1,8 +1,8 @@
 (* C11 — streaming subscribers materialize exactly the server's state.
    Theorems only; each closed by an application of a lemma of Stream/Proofs.v.
 
-   The machine ([Stream.Model]) mirrors /repo after the four C11 repairs (2bf672d, 949dae4, 9502e45,
-   f559b0f): a store, the queue of committed-but-unpublished batches tagged with the publisher's
+   The machine ([Stream.Model]) mirrors /repo after the C11 repairs (2bf672d, 949dae4, 9502e45,
+   f559b0f amended by 716731d): a store, the queue of committed-but-unpublished batches tagged with the publisher's
    generation (publishCh), per topic/subject buffers with object identity, the snapshot cache, and
    clients = materializer + subscription (with its snapshotIndex).  [run cache ls] executes a schedule
    of Commit / Publish(one batch) / Subscribe / Next / Unsub / Restore / Evict labels from the initial
@@ -14,7 +14,7 @@
    larger than the last raft index; a restored store has one row per key.  Its query-index clause is
    broken by the real state store in one class (known finding query-index-behind-content, belongs with
    C06); it is shown necessary below. *)
-From Verif Require Import Base.Prelude Stream.Model Stream.Proofs.
+From Verif Require Import Base.Prelude Stream.Model Stream.Lookup Stream.Proofs.
 Local Open Scope N_scope.
 
 (* ---- after each delivery the view is the store's content for the subject at the delivered index.
@@ -53,16 +53,26 @@ Theorem C11_eventual : forall cache ls k x,
   forall key, aget key (c_view x) = content_now (run cache ls) (c_ts x) key.
 Proof. exact eventual. Qed.
 
-(* ---- no skip, no duplicate: what Next will still hand to a streaming client is exactly, in order and
-   once each, the commits that touched its subject after its index (and everything up to its index is in
-   the view, by C11_view_is_some_committed_state_partial) *)
+(* ---- no skip: what Next will still hand to a streaming client is, in order and once each, the commits
+   that touched its subject after its index — preceded, at most, by the one batch at the client's own
+   index: the batch at the snapshot's index, which Next delivers once more after the snapshot (716731d).
+   Everything up to the client's index is in the view (C11_view_is_some_committed_state_partial), and
+   that theorem holds in every state, so the repeated batch leaves the view exact. *)
 Theorem C11_no_skip : forall cache ls k x,
   env_ok cache ls ->
   client_of (run cache ls) k = Some x -> is_open x = true -> streaming x = true ->
-  pending (run cache ls) x = proj (c_ts x) (log_after (c_idx x) (st_log (run cache ls))).
+  exists dup, dup_batch (run cache ls) x dup /\
+              pending (run cache ls) x = dup ++ proj (c_ts x) (log_after (c_idx x) (st_log (run cache ls))).
 Proof. exact no_skip. Qed.
 
-(* ---- delivered indexes never decrease (NewSnapshotToFollow resets the view and is not an update) *)
+(* applying the events of a batch (Register/Upsert and Deregister/Delete of rows) a second time changes
+   no row: why the repeated batch is harmless *)
+Theorem C11_batch_idempotent : forall evs m key,
+  aget key (apply evs (apply evs m)) = aget key (apply evs m).
+Proof. exact batch_idempotent. Qed.
+
+(* ---- delivered indexes never decrease (NewSnapshotToFollow resets the view and is not an update);
+   they are not strictly increasing: the batch at the snapshot's index repeats that index once *)
 Theorem C11_monotone : forall cache ls k x st' it x',
   env_ok cache ls ->
   client_of (run cache ls) k = Some x ->
@@ -95,10 +105,25 @@ Qed.
 (* ---- the schedules of the repaired findings, on the repaired machine: the client ends with exactly the
    current rows, nothing pending, Next blocks *)
 
-(* finding 11 (subscribe in the commit/publish gap): snapshot@11 = {A:2, B:3}; the queued batches 10 and
-   11 are skipped by Next, the index never goes back to 10 *)
+(* finding 11 (subscribe in the commit/publish gap): snapshot@11 = {A:2, B:3}; the queued batch 10 is
+   skipped by Next, batch 11 is delivered once more at index 11: the index never goes back to 10 *)
 Example C11_gap_schedule_repaired : settled true gap_sched [(kA, 2); (kB, 3)] 11.
 Proof. exact gap_witness. Qed.
+
+(* the re-delivery itself: before it the client is at index 11 with {A:2, B:3}; Next hands it the batch of
+   index 11; afterwards (previous example) index and view are the same *)
+Example C11_gap_schedule_duplicate :
+  exists x it st',
+    client_of (run true (removelast gap_sched)) 0 = Some x /\ c_idx x = 11 /\ c_view x = [(kA, 2); (kB, 3)] /\
+    step (run true (removelast gap_sched)) (LNext 0) = (st', ODeliver it) /\ item_idx it = 11.
+Proof. exact gap_duplicate_witness. Qed.
+
+(* the floor index: a subscription on an empty subject gets snapshot index 1; a write at index 1 (outside
+   env_ok: Raft never gives user data index 1, upstream tests do) is delivered, not skipped *)
+Example C11_floor_index_delivered :
+  exists x, client_of (run true floor_sched) 0 = Some x /\ c_view x = [(kA, 1)] /\ c_idx x = 1 /\
+            snd (step (run true floor_sched) (LNext 0)) = OBlock.
+Proof. exact floor_witness. Qed.
 
 (* a second subscriber holds its subscription across the restore: the topic buffer is dropped with it *)
 Example C11_restore_topic_buffer_repaired : settled true restore_buffer_sched [(kA, 1)] 10.
@@ -118,10 +143,13 @@ Print Assumptions C11_view_is_some_committed_state_refuted.
 Print Assumptions C11_query_is_log.
 Print Assumptions C11_eventual.
 Print Assumptions C11_no_skip.
+Print Assumptions C11_batch_idempotent.
 Print Assumptions C11_monotone.
 Print Assumptions C11_forced_resubscribe_restore.
 Print Assumptions C11_forced_resubscribe_acl.
 Print Assumptions C11_gap_schedule_repaired.
+Print Assumptions C11_gap_schedule_duplicate.
+Print Assumptions C11_floor_index_delivered.
 Print Assumptions C11_restore_topic_buffer_repaired.
 Print Assumptions C11_restore_publish_queue_repaired.
 Print Assumptions C11_hypotheses_satisfiable.
